@@ -12,7 +12,7 @@ META = {
                    '(bitmap typestate of destroy/sweep). R04.3 ownership hand-over is paired: every constant the compiler\'s collector '
                    'gives up is adopted by the run\'s collector, the result is given up exactly on the Ok exit. R04.4 the sweep frees each '
                    'removed object exactly once and only unmarked ones.'
-                   ' R04.5 free_recursive releases every reachable object exactly once (address-keyed first-time test before every free; arrays are entered). R04.7 untrace hands the whole result over. R04.8 objects are freed only by the sweep or by free_recursive.',
+                   ' R04.5 free_recursive releases every reachable object exactly once (address-keyed first-time test before every free; arrays are entered). R04.7 untrace hands the whole result over. R04.8 objects are freed only by the sweep or by free_recursive. R04.9 no static item can hold a value. R04.10 untrace recurses into the elements only after removing the object it was given (terminates on cyclic arrays, visits shared parts once).',
     'not_decided': ['the allocation ledger itself (each object released exactly once as a count over a run)',
                     'release at every instruction-level abort point (we decide only that all exits share the one release path)'],
 }
